@@ -322,11 +322,17 @@ func (env *Env) rangeIndexCell() *Cell {
 
 // findCell resolves a local variable name to a live cell.
 func (env *Env) findCell(name string) *Cell {
-	if env.fr == nil {
-		return nil
+	for fr := env.fr; fr != nil; fr = fr.parent {
+		if c := env.findCellIn(fr, name); c != nil {
+			return c
+		}
 	}
+	return nil
+}
+
+func (env *Env) findCellIn(fr *Frame, name string) *Cell {
 	var cands []*ssa.Alloc
-	for a, c := range env.fr.cells {
+	for a, c := range fr.cells {
 		if a.Comment == name {
 			if _, live := env.st.cells[c]; live {
 				cands = append(cands, a)
@@ -345,7 +351,7 @@ func (env *Env) findCell(name string) *Cell {
 			}
 			return cands[i].Pos() < cands[j].Pos()
 		})
-		if env.li != nil {
+		if env.li != nil && fr == env.fr {
 			var dom []*ssa.Alloc
 			for _, a := range cands {
 				if a.Block().Dominates(env.li.header) && !env.li.blocks[a.Block()] {
@@ -353,11 +359,11 @@ func (env *Env) findCell(name string) *Cell {
 				}
 			}
 			if len(dom) > 0 {
-				return env.fr.cells[dom[len(dom)-1]]
+				return fr.cells[dom[len(dom)-1]]
 			}
 		}
 	}
-	return env.fr.cells[cands[0]]
+	return fr.cells[cands[0]]
 }
 
 func (env *Env) evalBin(x EBin) Val {
@@ -557,7 +563,11 @@ func (e *Engine) loadHeapFieldQuiet(st *State, structT types.Type, ref string, p
 	cs := flat(ft)
 	ts := make([]string, len(cs))
 	for i, c := range cs {
-		arr := e.heapTerm(st, heapName(structT, fname, c.Suffix), "(Array Int "+c.Sort+")")
+		hn := heapName(structT, fname, c.Suffix)
+		if len(cs) == 1 {
+			noteRefHeap(hn, ft)
+		}
+		arr := e.heapTerm(st, hn, "(Array Int "+c.Sort+")")
 		ts[i] = sx("select", arr, ref)
 	}
 	return buildAll(ft, ts)
@@ -751,6 +761,12 @@ func (env *Env) evalCall(x ECall) Val {
 		r := e.unboxQuiet(env.st, v.Fs[1].T, obj.Type())
 		r.Typ = obj.Type()
 		return r
+	case "malformed":
+		v := env.eval(x.Args[0])
+		if v.K != KIface {
+			cerr("malformed() on non-interface")
+		}
+		return boolv(e.malformedTerm(v))
 	case "tagof":
 		v := env.eval(x.Args[0])
 		if v.K != KIface {
@@ -918,4 +934,25 @@ func (env *Env) evalQuant(x EQuant) Val {
 		return boolv(fmt.Sprintf("(forall (%s) %s)", strings.Join(vars, " "), implies(and(guards...), body.T)))
 	}
 	return boolv(fmt.Sprintf("(exists (%s) %s)", strings.Join(vars, " "), and(append(guards, body.T)...)))
+}
+
+// malformedTerm: "errors.As(err, **MalformedFileError) succeeds".  True for the
+// dynamic type *pdf.MalformedFileError; otherwise an uninterpreted property of
+// the error value (wrapped errors), false for nil.
+func (e *Engine) malformedTerm(v Val) string {
+	if !e.ctx.decls["err.malformed"] {
+		tag := 0
+		for _, p := range e.prog.AllPackages() {
+			if p.Pkg.Path() == modulePrefix {
+				if tn, ok := p.Pkg.Scope().Lookup("MalformedFileError").(*types.TypeName); ok {
+					tag = typeTag(types.NewPointer(tn.Type()))
+				}
+			}
+		}
+		if tag == 0 {
+			cerr("malformed(): type pdf.MalformedFileError not loaded")
+		}
+		e.ctx.Global("err.malformed", fmt.Sprintf("(declare-fun err.wm (Int Int) Bool)\n(assert (forall ((v Int)) (! (not (err.wm 0 v)) :pattern ((err.wm 0 v)))))\n(define-fun err.malformed ((t Int) (v Int)) Bool (or (= t %d) (err.wm t v)))", tag))
+	}
+	return sx("err.malformed", v.Fs[0].T, v.Fs[1].T)
 }
